@@ -152,3 +152,15 @@ func (ex *Exec) fpIsInf(t *smt.Term) *smt.Term {
 	}
 	return ex.fpRaw(smt.SBool, "fp.isInfinite", t)
 }
+
+func bigFromU64(u uint64) *big.Int { return new(big.Int).SetUint64(u) }
+
+// freshFP is an unconstrained float64 (used for functions that are not interpreted).
+func (ex *Exec) freshFP(why string) *smt.Term {
+	ex.fpSeq++
+	bits := ex.b.Var(fmt.Sprintf("%s!%d", why, ex.fpSeq), smt.SBV64, nil, nil)
+	if ex.solver != nil {
+		ex.solver.Declare(bits)
+	}
+	return ex.fpRaw(smt.SFP, "(_ to_fp 11 53)", bits)
+}
